@@ -9,6 +9,7 @@ import (
 	"github.com/gardenbed/emerge/internal/ebnf/parser"
 	east "github.com/gardenbed/emerge/internal/ebnf/parser/ast"
 	"github.com/gardenbed/emerge/internal/ebnf/parser/spec"
+	"github.com/gardenbed/emerge/verif/cli"
 	"github.com/gardenbed/emerge/verif/ev"
 	"github.com/gardenbed/emerge/verif/ref/ebnfref"
 	"github.com/gardenbed/emerge/verif/ref/lrref"
@@ -187,6 +188,36 @@ func runParser(text string) (o outcome) {
 	return outcome{ok: true}
 }
 
+// viaCLI gives the text to the real binary as the file f.g: a text that is not a specification must end in a non-zero
+// exit status without a success announcement, and the first position standing on stderr must be want ("" = none demanded).
+var cliCalls int
+
+func viaCLI(r *ev.Run, text, want string, in any) {
+	t, err := cli.Get()
+	if err != nil {
+		ev.Fatal("%v", err)
+	}
+	cliCalls++
+	if r.Quick() && cliCalls%3 != 0 {
+		return // quick: every third text of this worker also goes through the binary
+	}
+	res := t.Run("f.g", text, "", "-out=.")
+	r.Add("cli_runs", 1)
+	switch {
+	case res.Code == -2:
+		r.Report("", "the emerge binary does not exit within 120 s\n"+text, in)
+	case res.Trace:
+		r.Add("cli_traces_left_to_C14", 1)
+	case res.Code == 0 || res.Announced:
+		r.Report("", fmt.Sprintf("the emerge binary exits with status %d (success announced: %v) for a text that is not a specification\n%s", res.Code, res.Announced, text), in)
+	case want != "":
+		pos := posRE.FindAllString(res.Stderr, -1)
+		if len(pos) == 0 || pos[0] != want {
+			r.Report("", fmt.Sprintf("the emerge binary reports %q on stderr; the first offending token is at %s\n%s", cli.StripEmoji(res.Stderr), want, text), in)
+		}
+	}
+}
+
 type layout struct {
 	name string
 	sep  func(i int) string
@@ -311,6 +342,13 @@ func checkMutant(r *ev.Run, t *lrref.Table, toks []ebnfref.Token, family string)
 				}
 			}
 		}
+		if lay.name == "one-line" || lay.name == "vertical" || strings.HasPrefix(lay.name, "aligned-") {
+			want := ""
+			if j < len(toks) {
+				want = fmt.Sprintf("f.g:%d:%d", placed[j].Line, placed[j].Col)
+			}
+			viaCLI(r, text, want, in)
+		}
 		// nothing after the offending token influences the message
 		if j < len(toks) && !s.ok {
 			for _, suffix := range [][]string{{}, {";"}, {"IDENT", "=", "STRING", ";"}, {")", "@left", "grammar"}} {
@@ -395,6 +433,9 @@ func checkLexical(r *ev.Run, t *lrref.Table, toks []ebnfref.Token, gap int, dama
 				r.Report("", fmt.Sprintf("%s reports %q; the stray text %q starts at %s\n%s", e.name, e.o.err, damage, want, text), in)
 			}
 		}
+		if lay.name == "one-line" || lay.name == "glued-both" {
+			viaCLI(r, text, want, in)
+		}
 	}
 }
 
@@ -422,11 +463,16 @@ func main() {
 		r.Finish()
 	}
 	if r.Fork(16) {
-		r.Set("rule", "5 valid token sequences (7-70 tokens) x {delete token i, insert each of the 22 kinds before token i, replace token i by each kind, truncate before token i} for every i, and 20 kinds of lexical damage (NUL, control characters and a no-break space among them) in every gap (also glued to the token before it, after it, and both); each in five layouts (one line; one token per line; CR LF line ends; lone CRs between tokens; block and line comments with LF and CR LF inside in every gap); each rejected mutant re-rendered with 4 different continuations after the offending token; non-trivial = a mutant that is not a specification; distinct by text")
+		r.Set("rule", "5 valid token sequences (7-70 tokens) x {delete token i, insert each of the 22 kinds before token i, replace token i by each kind, truncate before token i} for every i, and 20 kinds of lexical damage (NUL, control characters and a no-break space among them) in every gap (also glued to the token before it, after it, and both); each in five layouts (one line; one token per line; CR LF line ends; lone CRs between tokens; block and line comments with LF and CR LF inside in every gap); each rejected mutant re-rendered with 4 different continuations after the offending token; the one-line, vertical and boundary-aligned layouts (for stray text: one-line and glued) are also given to the real binary as a file (quick: every third), which must exit non-zero without announcing success and name the same file:line:column first on stderr; non-trivial = a mutant that is not a specification; distinct by text")
 		r.Set("evaluations", r.Get("mutants"))
 		r.Finish()
 	}
 	r.Set("exhaustive", true)
+	r.OnFinish(func() {
+		if t, err := cli.Get(); err == nil {
+			t.Close()
+		}
+	})
 	n := 0
 	mine := func() bool { n++; return r.MineIdx(n) }
 	nb := len(bases)
